@@ -71,6 +71,39 @@ Theorem C25_csv_nested_cell : forall t v, is_container v = true -> has_type t v 
 Proof. exact csv_nested_cell. Qed.
 Print Assumptions C25_csv_nested_cell.
 
+(* SetSchema (WithoutQualifiers) of both formatters: json_run / csv_run = json_file / csv_file on the printed schema
+   without_qualifiers fields.  The printed schema keeps every column and its type, so C25_json / C25_csv apply to it
+   for exactly the rows that conform to the schema given. *)
+Theorem C25_schema_types_kept : forall fields,
+  map snd (without_qualifiers fields) = map snd fields /\
+  (forall row, row_typed (without_qualifiers fields) row = row_typed fields row) /\
+  (fields <> [] -> without_qualifiers fields <> []).
+Proof. exact wq_kept. Qed.
+Print Assumptions C25_schema_types_kept.
+
+(* Exactly one member / header cell per column.  Full statement:
+     forall fields, NoDup (map fst fields) -> NoDup (map fst (without_qualifiers fields))
+   (distinct columns keep distinct printed names, so that no decoder merges two of them).  Proved for schemas in
+   which no column name holds a '.' after its qualifier (names `col` or `table.col`): then a qualifier is stripped
+   only from a short name that occurs once, and a name kept in full never equals another column's short name.
+   Missing: names with two or more dots, for which the full statement is false (next theorem). *)
+Theorem C25_schema_names_distinct_partial : forall fields,
+  NoDup (map fst fields) -> forallb (fun n => no_dot (short_name n)) (map fst fields) = true ->
+  NoDup (map fst (without_qualifiers fields)).
+Proof. exact wq_names_distinct. Qed.
+Print Assumptions C25_schema_names_distinct_partial.
+
+(* the columns q.`x.y`, x.y and z.y are printed as x.y, x.y, z.y (finding class qualifier-strip-collision) *)
+Theorem C25_schema_names_distinct_refuted :
+  exists fields, NoDup (map fst fields) /\ ~ NoDup (map fst (without_qualifiers fields)).
+Proof. exact wq_collision_with_dotted_column. Qed.
+Print Assumptions C25_schema_names_distinct_refuted.
+
+(* the executable test the oracles use for "one member per column" decides NoDup *)
+Theorem C25_oracle_nodup : forall l, nodupb l = true <-> NoDup l.
+Proof. exact nodupb_spec. Qed.
+Print Assumptions C25_oracle_nodup.
+
 (* Partial.  Full statement: "floats are exact", i.e. for every finite float64 f,
      ParseFloat (AppendFloat f 'g' -1 64) = f  and  ParseFloat (FormatFloat f 'f' -1 64) = f.
    strconv's shortest-digit generation and its parser are not modelled, so this is not a theorem here.
